@@ -60,6 +60,10 @@ CHECKS = {
    text="spec/Access.tla has three aspects. vis: a member (property | method x public | protected | private x static or not) declared in D is read, written or called through a path (->, $this->, ->$name, [\"name\"], Cls::, self::, static::, parent::) from a site (declaring class, closure in it, subclass, grand-child, unrelated class, top level) on a D or an S object; Allowed(mod, site) is the reference. type: 8 declared types (int, string, array, class, interface, ?int, ?class, int|string) x 10 runtime value kinds x 10 boundaries (typed property, static property, parameter of function / method / static method / constructor / closure, return of function / method / closure); Accepts is exact. inst: 16 class shapes (abstract, interface, abstract method left open by parent / grandparent / interface / parent interface, ...). TLC enumerates every scenario as an initial state (465 + 800 + 16) with the reference verdict and the verdict of a named-deviation layer; each is rendered into a class fixture (names and an optional middle class vary with VERIF_SEED; thorough: 8 variants) and run on the real interpreter: denied cases must raise a catchable error, leave the member unchanged and not run the method body; accepted values must arrive === unchanged.",
    note="Trusted: reading a member from inside the declaring class (peek) as the observation of its value. Accesses the reference allows but the interpreter refuses are not violations (counted in coverage.allowed_but_denied, vacuity guard at one third). Six named deviations are open known findings (static members unchecked, private checked as protected, null accepted by typed parameters, typed static property unchecked, closure return type dropped, method null return coerced); cells outside them are violations.",
    tech="TLA+ scenario spec (visibility matrix, type gate, instantiability) enumerated by TLC; every scenario rendered as a class fixture and replayed on the real interpreter, verdict and no-effect compared with the reference, deviations classified by the spec's deviation layer"),
+ "C14": dict(cat="model_checking", ref="§5 C14",
+   text="Three specs. spec/Protowire.tla: the raw-field parser as a push-down machine (frames top | msg | grp, depth limit, actions Scalar / Malformed / EnterMessage / LeaveMessage / EnterGroup / EndGroup / Finish) over abstract wire items; TLC checks AcceptImpliesAllConsumed, DepthNeverExceeds and termination on every token stream of the flat, nested and chains families x max_depth settings, and refutes the two named deviations of the pinned parser (stray end-group stops the parse, groups one level too deep). Every behaviour's verdict and field tree is replayed: the stream is concretised with google.golang.org/protobuf/encoding/protowire and fed to ParseRawFields in-process and to Protowire::parse through scripts. spec/ByteCodecs.tla: bin2hex, base64, urlencode, rawurlencode as exact transducers over byte sequences with their inverses; TLC checks the round-trip laws on every single byte, every pair over 56 interesting bytes (thorough: all 65536 pairs) and triples, and prints the expected encodings, which must equal what the interpreter's functions return; the decoders must invert them (also with lower-case escapes). spec/Codec.tla: value classes (boundary ints, floats, string classes, lists, string- and int-keyed maps incl. symbolic key classes, nested) with the JSON and PHP-serialize token streams a faithful encoder emits and reference decoders on token streams (JsonRoundTrip, SerRoundTrip, ShapeLaw); the interpreter's json_encode / serialize output is read back by Go's encoding/json tokenizer / a serialize reader and compared token by token, and decode(encode(v)) === v is checked in the script; json_decode is compared with json.Valid on truncations and corruptions of the generated texts.",
+   note="Trusted: Go's protowire writer, encoding/json tokenizer and json.Valid, and the harness's reader of the serialize grammar, as the reference implementations the property names. md5/hash digests, the @Field annotation layer of Protowire::serialize and 4 KiB random fuzzing of the text decoders are not decided by the specification.",
+   tech="TLA+ push-down machine for the wire parser plus transducer / token-stream specs of the text codecs, model-checked by TLC; every behaviour and case replayed on the real encoders and decoders with the reference implementations as projection"),
 }
 NOT_YET = "check not built yet in this round (planned: TLA+ spec + conformance binding, see DESIGN.md §5)"
 def main():
